@@ -6,6 +6,7 @@ import (
 	"go/token"
 	"go/types"
 	"os"
+	"sort"
 	"strings"
 
 	"golang.org/x/tools/go/ssa"
@@ -556,7 +557,7 @@ func runC05(r *Run, p *Prog) {
 					}, func(from, to *ssa.BasicBlock) bool {
 						for _, fc := range T.edgeFactsOn(from, to) {
 							fa, fb := strip(fc.A), strip(fc.B)
-							if posName != "" && fc.Op == "NE" && (strings.Contains(fa, posName) || strings.Contains(fb, posName)) {
+							if posName != "" && (fc.Op == "NE" || fc.Op == "LT") && (strings.Contains(fa, posName) || strings.Contains(fb, posName)) {
 								return true // the position has changed: something was consumed
 							}
 							if fc.Op == "NE" && (fb == "nil" || fb == `const:""`) && strings.HasPrefix(fa, "call:") || fc.Op == "NE" && (fa == "nil" || fa == `const:""`) && strings.HasPrefix(fb, "call:") {
@@ -574,6 +575,199 @@ func runC05(r *Run, p *Prog) {
 			}
 		}
 		r.Stat("line_only_skips", n)
+	})
+	r.Guard("K13", func() {
+		// line ends are consumed by the layout skipper only (which is what clears the pending comment, K4): in no other
+		// function does a read that yields '\n' stay consumed on a path that goes on parsing or returns success - a
+		// reader that eats the newline itself (`if p.next() == '\n' { return e, nil }`) lets the documentation block of
+		// one member leak into the next
+		isSkip := map[*ssa.Function]bool{origFn(m.skipper): true}
+		for _, ls := range m.lineSkipper {
+			isSkip[origFn(ls)] = true
+		}
+		n := 0
+		// (in the readers' views: helpers that are not readers themselves - `expect(c byte) bool`, a comment loop of the
+		// skipper - are part of the reader that calls them, with their arguments known)
+		for _, f := range a.methods {
+			if len(f.Blocks) == 0 || isSkip[origFn(f)] || f == a.next || f == a.back || origFn(f) == origFn(a.next) || a.inlinedHelpers[f] || a.inlinedHelpers[origFn(f)] {
+				continue
+			}
+			if a.skipUntil != nil && f == a.skipUntil {
+				continue
+			}
+			res := f.Signature.Results()
+			failure := func(ret *ssa.Return) bool {
+				if len(ret.Results) == 0 {
+					return false
+				}
+				last := ret.Results[len(ret.Results)-1]
+				k, isK := last.(*ssa.Const)
+				if isErrorType(res.At(res.Len() - 1).Type()) {
+					return !(isK && k.IsNil())
+				}
+				if !isK {
+					return false
+				}
+				if k.IsNil() {
+					return true
+				}
+				if k.Value != nil && k.Value.Kind() == constant.Bool {
+					return !constant.BoolVal(k.Value)
+				}
+				if k.Value != nil && k.Value.Kind() == constant.String {
+					return constant.StringVal(k.Value) == ""
+				}
+				return false
+			}
+			for _, site := range a.readSites(f) {
+				type pos struct {
+					b     *ssa.BasicBlock
+					i, d  int
+					alias string
+				}
+				type item struct {
+					p  pos
+					vs map[ssa.Value]bool
+					ks map[ssa.Value]*ssa.Const // merged values whose incoming edge on this path carries a constant
+				}
+				key := func(vs map[ssa.Value]bool) string {
+					var ks []string
+					for v := range vs {
+						ks = append(ks, v.Name())
+					}
+					sort.Strings(ks)
+					return strings.Join(ks, ",")
+				}
+				start := map[ssa.Value]bool{site: true}
+				work := []item{{pos{site.Block(), instrIndex(site) + 1, 1, key(start)}, start, map[ssa.Value]*ssa.Const{}}}
+				seen := map[string]bool{}
+				var bad ssa.Instruction
+				var curKs map[ssa.Value]*ssa.Const
+				follow := func(from, to *ssa.BasicBlock, d int, vs map[ssa.Value]bool) item {
+					nk := map[ssa.Value]*ssa.Const{}
+					for k, v := range curKs {
+						nk[k] = v
+					}
+					nv := map[ssa.Value]bool{}
+					for v := range vs {
+						if ph, isPhi := v.(*ssa.Phi); isPhi && ph.Block() == to {
+							continue
+						}
+						nv[v] = true
+					}
+					pi := -1
+					for k, pb := range to.Preds {
+						if pb == from {
+							pi = k
+						}
+					}
+					for _, in := range to.Instrs {
+						ph, isPhi := in.(*ssa.Phi)
+						if !isPhi {
+							break
+						}
+						if pi >= 0 && vs[ph.Edges[pi]] {
+							nv[ph] = true
+						}
+						if pi >= 0 {
+							if k, isK := ph.Edges[pi].(*ssa.Const); isK {
+								nk[ph] = k
+							} else if k, known := curKs[ph.Edges[pi]]; known {
+								nk[ph] = k
+							} else if pv, ok := foldValue(ph.Edges[pi], vs, '\n', 0); ok && pv.isBool {
+								nk[ph] = ssa.NewConst(constant.MakeBool(pv.b), types.Typ[types.Bool])
+							} else {
+								delete(nk, ph)
+							}
+						}
+					}
+					return item{pos{to, 0, d, key(nv)}, nv, nk}
+				}
+				for len(work) > 0 && bad == nil {
+					it := work[0]
+					work = work[1:]
+					pp := it.p
+					curKs = it.ks
+					if pp.i == 0 {
+						k := fmt.Sprintf("%d|%d|%s|%d", pp.b.Index, pp.d, pp.alias, len(it.ks))
+						if seen[k] {
+							continue
+						}
+						seen[k] = true
+					}
+					d := pp.d
+					ended := false
+					for i := pp.i; i < len(pp.b.Instrs) && !ended && bad == nil; i++ {
+						switch x := pp.b.Instrs[i].(type) {
+						case *ssa.Call:
+							callee := x.Call.StaticCallee()
+							switch {
+							case callee == nil:
+							case callee == a.back || origFn(callee) == origFn(a.back):
+								d--
+								if d == 0 {
+									ended = true // the newline is back in the input
+								}
+							case callee == a.next || origFn(callee) == origFn(a.next):
+								if d < 4 {
+									d++
+								}
+							case a.isCursorMethod(callee):
+								bad = x // parsing goes on with the newline consumed
+							}
+						case *ssa.Store:
+							// the position is assigned or stepped back by hand: give up on this path (O1 judges such stores)
+							if isRecvField(x.Addr, f, a.posIdx, a.cursorT) {
+								ended = true
+							}
+						case *ssa.Return:
+							fail := failure(x)
+							if !fail && len(x.Results) > 0 {
+								// the value returned on this path: a merged constant, or computed from the byte read
+								last := x.Results[len(x.Results)-1]
+								if k, known := it.ks[last]; known && k.Value != nil && k.Value.Kind() == constant.Bool {
+									fail = !constant.BoolVal(k.Value)
+								} else if pv, ok := foldValue(last, it.vs, '\n', 0); ok && pv.isBool {
+									fail = !pv.b
+								}
+							}
+							if !fail {
+								bad = x
+							}
+							ended = true
+						case *ssa.If:
+							switch evalCondAliases(x.Cond, it.vs, '\n') {
+							case 1:
+								work = append(work, follow(pp.b, pp.b.Succs[0], d, it.vs))
+							case 0:
+								work = append(work, follow(pp.b, pp.b.Succs[1], d, it.vs))
+							default:
+								work = append(work, follow(pp.b, pp.b.Succs[0], d, it.vs), follow(pp.b, pp.b.Succs[1], d, it.vs))
+							}
+							ended = true
+						case *ssa.Jump:
+							work = append(work, follow(pp.b, pp.b.Succs[0], d, it.vs))
+							ended = true
+						case *ssa.Panic:
+							ended = true
+						}
+					}
+				}
+				n++
+				var w []token.Pos
+				if bad != nil {
+					w = append(w, bad.Pos())
+				}
+				_ = w
+				detail := ""
+				if bad != nil {
+					detail = "when this read yields '\\n' the byte stays consumed and " + ifs(isReturn(bad), "the reader returns success", "parsing goes on ("+p.Fset.Position(bad.Pos()).String()+")") + ": the line end never reaches the layout skipper, so the pending documentation block is not cleared and is attached to the next member"
+				}
+				r.Ob("K13", shortName(f), fmt.Sprintf("read #%d does not swallow a line end", a.ord(site)), site.Pos(), bad == nil, detail)
+			}
+		}
+		r.Stat("K13_read_sites", n)
+		r.Floor("K13", 5)
 	})
 	r.Guard("K12", func() {
 		// no rejection for a name that is not (yet) in the tree: a search of a list or table of the tree under
